@@ -372,13 +372,15 @@ func (s *fstate) contents(o Obj, cs map[Obj]ObjSet) ObjSet {
 
 // typeKind: a coarse kind of a pointer-like static type ("" when unknown or an interface).
 func typeKind(t types.Type) string {
-	switch t.Underlying().(type) {
+	switch u := t.Underlying().(type) {
 	case *types.Pointer:
-		return "ptr"
+		return "ptr:" + types.TypeString(u.Elem(), nil)
 	case *types.Slice:
-		return "slice"
+		// (the element type is part of the kind: the backing array of a []int is
+		// never what a load of type [][]int yields)
+		return "slice:" + types.TypeString(u.Elem(), nil)
 	case *types.Map:
-		return "map"
+		return "map:" + types.TypeString(u.Key(), nil) + ":" + types.TypeString(u.Elem(), nil)
 	case *types.Chan:
 		return "chan"
 	case *types.Signature:
